@@ -128,6 +128,11 @@ NOP_PREFIXES = ('StorageLive', 'StorageDead', 'nop', 'FakeRead', 'AscribeUserTyp
 
 class Engine:
     def __init__(self, mir_text, src_root, src_globs=('lib/src/**/*.rs',), features=()):
+        self.closure_ops = {}
+        if isinstance(mir_text, tuple):
+            mir_text, cl = mir_text
+            for span, ops in cl.items():
+                self.closure_ops[span] = [o if o.startswith(('copy ', 'move ', 'const ')) else 'copy ' + o for o in split_top(ops)]
         self.fns = parse_mir(mir_text)
         self.src_root = src_root
         self.features = set(features)
@@ -135,6 +140,7 @@ class Engine:
         self.enums = dict((k, list(v)) for k, v in STD_ENUMS.items())
         self.enum_discr = dict(STD_DISCR)
         self.structs = {}
+        self.structs_q = {}
         self.impl_info = {}
         self.by_method = {}
         self.closure_by_span = {}
@@ -241,7 +247,8 @@ class Engine:
                     part2 = re.sub(r'#\[(?:[^\[\]]|\[[^\]]*\])*\]', '', part).strip()
                     mm = re.match(r'(?:pub(?:\([a-z]+\))?\s+)?(\w+)\s*:', part2)
                     if mm and on: names.append(mm.group(1))
-                self.structs[m.group(1)] = names
+                self.structs_q[(p, m.group(1))] = names
+                if m.group(1) not in self.structs: self.structs[m.group(1)] = names
 
     def field(self, struct_name, field_name):
         return self.structs[struct_name].index(field_name)
@@ -532,6 +539,8 @@ class Engine:
             return ('val', v)
         if s in ('true', 'false'): return ('val', s == 'true')
         if s == '()': return ('val', UNIT)
+        m = re.match(r'^(-?[\d.eE+-]+)f(32|64)$', s)
+        if m: return ('val', float(m.group(1)))
         mnum = re.match(r'^(?:core|std)::num::<impl (\w+)>::(MAX|MIN)$', s) or re.match(r'^(\w+)::(MAX|MIN)$', s)
         if mnum and mnum.group(1) in INT_TYPES:
             w, sg = INT_TYPES[mnum.group(1)]
@@ -710,8 +719,14 @@ class Engine:
                 inner = rest[1:-1].strip()
                 for part in split_top(inner):
                     nm, val = part.split(': ', 1)
-                    f.append(self.compile_operand(fn, val))
-            return ('closure', span, f)
+                    f.append(val.strip())
+            full = self.closure_ops.get(span)
+            if full is not None:
+                if [x for x in full[:len(f)]] != f and len(full) == len(f): raise Unsupported('closure capture mismatch at ' + span)
+                f = full
+            elif self.closure_ops:
+                raise Unsupported('closure %s not in the stable-MIR capture table' % span)
+            return ('closure', span, [self.compile_operand(fn, x) for x in f])
         # Path::Variant(args) / Path(args) / Path { fields } / Path::Unit
         if s.endswith(')') and c0 != '(':
             io = self.call_open(s)
@@ -736,6 +751,7 @@ class Engine:
             return ('enum', segs[-1], segs[-2], [])
         if re.match(r'^[\w:]+$', path) and (segs[-1] in self.structs or segs[-1][:1].isupper()):
             return ('tuple', [])         # unit struct
+        if self.resolve(s) is not None: return ('use', (3, s))
         raise Unsupported('rvalue ' + s)
 
     def eval_rvalue(self, fr, fn, r):
